@@ -72,7 +72,7 @@ def run(ctx):
         factories = [None, "pil", "png", "svg", "svg-path", "svg-fragment", "pymaging", "qrcode.image.svg.SvgFillImage", "nope", "no.such.Module", "qrcode.image.pil.Nope"]
         drawers = [None, None, "circle", "gapped-circle", "gapped-square", "nonsense"]
         levels = [None, "L", "M", "Q", "H", "X"]
-        N = 700 if tier == "thorough" else 130
+        N = 900 if tier == "thorough" else 260
         def payload():
             k = rnd.choice(["text", "digits", "mixed", "bin", "invalid-utf8", "empty", "nl"])
             if k == "text":
